@@ -14,6 +14,7 @@ import (
 	"os"
 	"runtime/debug"
 	"sort"
+	"strings"
 
 	"github.com/nginx/kubernetes-ingress/internal/configs"
 	"github.com/nginx/kubernetes-ingress/internal/k8s"
@@ -88,6 +89,7 @@ type CtlStep struct {
 	Probe  k8s.VProbe         `json:"probe"`
 	Render []k8s.VMaster      `json:"render"`
 	Files  []string           `json:"files"` // per-resource configuration files that exist after the step
+	PT     [][2]string        `json:"pt"`    // tls-passthrough-hosts.conf: host -> unix socket
 	Hosts  map[string]string  `json:"hosts"`
 	LHosts map[string]string  `json:"lhosts"`
 	Res    []k8s.VRes         `json:"res"`
@@ -96,29 +98,50 @@ type CtlStep struct {
 // recMgr is the fake NGINX manager that remembers which configuration files exist.
 type recMgr struct {
 	*nginx.FakeManager
-	conf, stream map[string]bool
+	conf, stream map[string]string
 	passthrough  string
 }
 
 func newRecMgr() *recMgr {
-	return &recMgr{FakeManager: nginx.NewFakeManager("/etc/nginx"), conf: map[string]bool{}, stream: map[string]bool{}}
+	return &recMgr{FakeManager: nginx.NewFakeManager("/etc/nginx"), conf: map[string]string{}, stream: map[string]string{}}
 }
+
+// like LocalManager, the Create* methods answer whether the content of the file changed
 func (m *recMgr) CreateConfig(name string, content []byte) bool {
-	m.conf[name] = true
-	return m.FakeManager.CreateConfig(name, content)
+	old, had := m.conf[name]
+	m.conf[name] = string(content)
+	m.FakeManager.CreateConfig(name, content)
+	return !had || old != string(content)
 }
 func (m *recMgr) DeleteConfig(name string) { delete(m.conf, name); m.FakeManager.DeleteConfig(name) }
 func (m *recMgr) CreateStreamConfig(name string, content []byte) bool {
-	m.stream[name] = true
-	return m.FakeManager.CreateStreamConfig(name, content)
+	old, had := m.stream[name]
+	m.stream[name] = string(content)
+	m.FakeManager.CreateStreamConfig(name, content)
+	return !had || old != string(content)
 }
 func (m *recMgr) DeleteStreamConfig(name string) {
 	delete(m.stream, name)
 	m.FakeManager.DeleteStreamConfig(name)
 }
 func (m *recMgr) CreateTLSPassthroughHostsConfig(content []byte) bool {
+	old := m.passthrough
 	m.passthrough = string(content)
-	return m.FakeManager.CreateTLSPassthroughHostsConfig(content)
+	m.FakeManager.CreateTLSPassthroughHostsConfig(content)
+	return old != string(content)
+}
+
+// passthroughHosts parses tls-passthrough-hosts.conf: host -> unix socket
+func (m *recMgr) passthroughHosts() [][2]string {
+	out := [][2]string{}
+	for _, line := range strings.Split(m.passthrough, "\n") {
+		f := strings.Fields(strings.TrimSuffix(strings.TrimSpace(line), ";"))
+		if len(f) == 2 && !strings.HasPrefix(f[0], "#") {
+			out = append(out, [2]string{f[0], f[1]})
+		}
+	}
+	sort.Slice(out, func(i, j int) bool { return out[i][0] < out[j][0] })
+	return out
 }
 func (m *recMgr) files() []string {
 	out := []string{}
@@ -602,6 +625,13 @@ func (g *gen) next() Event {
 		return Event{Op: "delete", Spec: Spec{Kind: kind, NS: ns, Name: name}, Note: "delete"}
 	case 2:
 		// deleted and recreated before the worker ran: new UID, generation starts again
+		if r.Bool() {
+			// from the same manifest: everything but the identity of the object is equal
+			s := cur
+			s.UID, s.TS, s.Gen = g.newUID(), vh.Pick(r, stamps), 1
+			g.live[id] = s
+			return Event{Op: "upsert", Spec: s, Note: "recreate-same-spec"}
+		}
 		s := g.fresh(kind, ns, name)
 		g.live[id] = s
 		return Event{Op: "upsert", Spec: s, Note: "recreate"}
@@ -1020,7 +1050,7 @@ func runCtl(c *Case, anns map[string]int) (err error) {
 		if err != nil {
 			return err
 		}
-		c.Ctl = append(c.Ctl, CtlStep{Events: evs, Writes: writes, VErr: verr, Probe: v.LastProbe, Render: v.Mergeable(), Files: mgr.files(), Hosts: v.Arb.Hosts(), LHosts: v.Arb.LHosts(), Res: v.Arb.Resources()})
+		c.Ctl = append(c.Ctl, CtlStep{Events: evs, Writes: writes, VErr: verr, Probe: v.LastProbe, Render: v.Mergeable(), Files: mgr.files(), PT: mgr.passthroughHosts(), Hosts: v.Arb.Hosts(), LHosts: v.Arb.LHosts(), Res: v.Arb.Resources()})
 	}
 	wp := v.WeightProbe()
 	c.WeightProbe = &wp
